@@ -129,6 +129,17 @@ CHECKS = {
          'Python case mapping for stable cased letters and its own enumerating mode.',
     note='Trusted: Python str semantics; non-ASCII classification only checked for mode consistency. Atoms containing the '
          'single-quote character are left to C55 (results are read through the printer).'),
+ 'C15': dict(
+    level='exploration',
+    technique='runtime monitoring: metamorphic write/read round trip executed by the engine itself (variant check in-engine and on structural dumps)',
+    text='Generated terms over a vocabulary of tricky atoms (all predefined operator names, solo and symbol-char atoms, empty, '
+         'quoted/escaped, non-ASCII), used as atoms, functors (prefix/infix operator syntax at every priority), operands, with '
+         'negative numbers under - and ^, curly terms, lists, partial lists, strings with escapes, variables, integers of every '
+         'size and floats, are written with write_term quoted(true), with ignore_ops(true) and with writeq to a real stream, read '
+         'back under the same (default) operator table, and must be variants of the original.',
+    note='Input terms are given in functional, fully quoted notation (trusted reader path). Not covered: random operator tables '
+         '(implemented, switched off pending triage), rationals (no literal syntax), print/1 (absent in this build). KNOWN-FINDINGs '
+         'K29, K31, K33.'),
 }
 
 NOT_APPLICABLE_REASON_UNBUILT = ('check designed in DESIGN.md but not built/validated yet in this session; '
